@@ -14,15 +14,15 @@ RULES = {
     "C07": [("sa.rules.b3", "r_C07"), ("sa.rules.b6", "r_C03bc"), ("sa.rules.c03", "r_C03fgh"), ("sa.rules.c07", "r_C07eval"), ("sa.rules.c05", "r_none_tests"), ("sa.rules.c01", "r_C01i"), ("sa.rules.c25", "r_who_writes"), ("sa.rules.b3", "r_C16a"), ("sa.rules.c01e", "r_C01visitors"), ("sa.rules.cres", "r_resolver"), ("sa.rules.cpn", "r_processnode"), ("sa.rules.c05e", "r_C05children"), ("sa.rules.c32", "r_C32"), ("sa.rules.c03e", "r_C03eval"), ("sa.rules.cmeta", "r_initclass")],
     "C08": [("sa.rules.b3", "r_C08_C34"), ("sa.rules.cmeta", "r_initobj"), ("sa.rules.cres", "r_resolver"), ("sa.rules.cpn", "r_processnode"), ("sa.rules.c09e", "r_extrel"), ("sa.rules.c02", "r_C02eval")],
     "C09": [("sa.rules.b3", "r_C09"), ("sa.rules.b3", "r_C07"), ("sa.rules.cmisc", "r_C13d_C34f_C09d"), ("sa.rules.b3", "r_C08_C34"), ("sa.rules.cres", "r_resolver"), ("sa.rules.c10e", "r_C10eval"), ("sa.rules.cpn", "r_processnode"), ("sa.rules.c11e", "r_C11eval"), ("sa.rules.cdrv", "r_driver"), ("sa.rules.c09e", "r_extrel"), ("sa.rules.c17", "r_C18i"), ("sa.rules.c17e", "r_C17eval")],
-    "C10": [("sa.rules.b3", "r_C05_C10"), ("sa.rules.c05", "r_none_tests"), ("sa.rules.b6", "r_C03bc"), ("sa.rules.c03", "r_C03fgh"), ("sa.rules.c01", "r_C01i"), ("sa.rules.c01e", "r_C01visitors"), ("sa.rules.c10e", "r_C10eval"), ("sa.rules.c05e", "r_C05children"), ("sa.rules.c14", "r_C14inst"), ("sa.rules.cres", "r_resolver"), ("sa.rules.cpn", "r_processnode"), ("sa.rules.c17e", "r_C17eval"), ("sa.rules.c17e", "r_C17importuri"), ("sa.rules.c03e", "r_C03eval")],
+    "C10": [("sa.rules.b3", "r_C05_C10"), ("sa.rules.c05", "r_none_tests"), ("sa.rules.b6", "r_C03bc"), ("sa.rules.c03", "r_C03fgh"), ("sa.rules.c01", "r_C01i"), ("sa.rules.c01e", "r_C01visitors"), ("sa.rules.c10e", "r_C10eval"), ("sa.rules.c05e", "r_C05children"), ("sa.rules.c14", "r_C14inst"), ("sa.rules.cres", "r_resolver"), ("sa.rules.cpn", "r_processnode"), ("sa.rules.c17e", "r_C17eval"), ("sa.rules.c17e", "r_C17importuri"), ("sa.rules.c03e", "r_C03eval"), ("sa.rules.cmeta", "r_internalload")],
     "C11": [("sa.rules.b3", "r_C03de_C11a_C17bc"), ("sa.rules.c11", "r_C11b"), ("sa.rules.c11", "r_C11de"), ("sa.rules.c32", "r_C32c"), ("sa.rules.c05", "r_none_tests"), ("sa.rules.c12", "r_C12f"), ("sa.rules.c12e", "r_C12eval"), ("sa.rules.c11e", "r_C11eval"), ("sa.rules.c01e", "r_C01visitors"), ("sa.rules.c25e", "r_resolvecls"), ("sa.rules.c02", "r_C02eval")],
     "C12": [("sa.rules.b1", "r_C12a"), ("sa.rules.c12", "r_C12b"), ("sa.rules.c05", "r_C12c"), ("sa.rules.c11", "r_C11de"), ("sa.rules.c12", "r_C12f"), ("sa.rules.c12e", "r_C12eval"), ("sa.peg", "r_C24")],
-    "C13": [("sa.rules.b3", "r_C13"), ("sa.rules.c13", "r_C13eval"), ("sa.rules.cmisc", "r_C13d_C34f_C09d"), ("sa.rules.cmisc", "r_C13e"), ("sa.rules.c04", "r_C04defaults"), ("sa.rules.c17", "r_C18i"), ("sa.rules.b3", "r_C28b_C33b_C30bc"), ("sa.rules.cmeta", "r_mmapi"), ("sa.rules.cpn", "r_processnode"), ("sa.rules.cdrv", "r_driver"), ("sa.rules.c14", "r_endconstruction"), ("sa.rules.c05", "r_C05cde"), ("sa.rules.c02", "r_C02eval")],
+    "C13": [("sa.rules.b3", "r_C13"), ("sa.rules.c13", "r_C13eval"), ("sa.rules.cmisc", "r_C13d_C34f_C09d"), ("sa.rules.cmisc", "r_C13e"), ("sa.rules.c04", "r_C04defaults"), ("sa.rules.c17", "r_C18i"), ("sa.rules.b3", "r_C28b_C33b_C30bc"), ("sa.rules.cmeta", "r_mmapi"), ("sa.rules.cpn", "r_processnode"), ("sa.rules.cdrv", "r_driver"), ("sa.rules.c14", "r_endconstruction"), ("sa.rules.c05", "r_C05cde"), ("sa.rules.c02", "r_C02eval"), ("sa.rules.c14", "r_C14inst")],
     "C14": [("sa.rules.b4", "r_ledger"), ("sa.rules.c14", "r_C14inst"), ("sa.rules.c14", "r_ledger2"), ("sa.rules.b3", "r_C13"), ("sa.rules.c14", "r_C14h"), ("sa.rules.c14", "r_C14d"), ("sa.rules.c14", "r_C14i"), ("sa.rules.c14", "r_C15h"), ("sa.rules.c14", "r_C15i"), ("sa.rules.cmeta", "r_initclass"), ("sa.rules.cmeta", "r_initobj"), ("sa.rules.cpn", "r_processnode"), ("sa.rules.cdrv", "r_driver"), ("sa.rules.cmisc", "r_C06bcd"), ("sa.rules.c14", "r_endconstruction"), ("sa.rules.c17e", "r_C15eval"), ("sa.rules.cmeta", "r_validateuc"), ("sa.rules.c01e", "r_C01visitors")],
     "C15": [("sa.rules.b4", "r_ledger"), ("sa.rules.c14", "r_ledger2"), ("sa.rules.c14", "r_C14i"), ("sa.rules.c14", "r_C15h"), ("sa.rules.b3", "r_C16a"), ("sa.rules.c14", "r_C15i"), ("sa.rules.c17", "r_C17jkl"), ("sa.rules.c17", "r_C18i"), ("sa.rules.c14", "r_C14inst"), ("sa.rules.cmeta", "r_initclass"), ("sa.rules.c17e", "r_C17eval"), ("sa.rules.c17e", "r_C15eval"), ("sa.rules.cdrv", "r_driver"), ("sa.rules.c14", "r_endconstruction")],
     "C16": [("sa.rules.b3", "r_C16a"), ("sa.rules.c14", "r_ledger2"), ("sa.rules.c16", "r_cachekeys"), ("sa.rules.c16", "r_C16f"), ("sa.rules.c17", "r_C17i"), ("sa.rules.c25", "r_C27d"), ("sa.rules.b4", "r_ledger"), ("sa.rules.c14", "r_C14i"), ("sa.rules.c14", "r_C15h"), ("sa.rules.b6", "r_C19a_C01"), ("sa.rules.c14", "r_C14inst"), ("sa.rules.cmeta", "r_initclass"), ("sa.rules.c17", "r_C01h"), ("sa.rules.c17e", "r_C17eval"), ("sa.rules.c17e", "r_C15eval"), ("sa.rules.c17e", "r_C17importuri"), ("sa.rules.cdrv", "r_driver"), ("sa.rules.c17", "r_C18i"), ("sa.rules.c17e", "r_globalrepo"), ("sa.rules.cmeta", "r_internalload"), ("sa.rules.c16", "r_memo"), ("sa.rules.c16", "r_sharedbase")],
     "C17": [("sa.rules.b3", "r_C03de_C11a_C17bc"), ("sa.rules.b6", "r_C17ad_C22b"), ("sa.rules.c05", "r_none_tests"), ("sa.rules.c17", "r_C17fgh"), ("sa.rules.b4", "r_ledger"), ("sa.rules.c17", "r_C17i"), ("sa.rules.c17", "r_C17jkl"), ("sa.rules.c17", "r_C18i"), ("sa.rules.c17e", "r_C17eval"), ("sa.rules.c17e", "r_C15eval"), ("sa.rules.c17e", "r_C17importuri"), ("sa.rules.cdrv", "r_driver"), ("sa.rules.c17e", "r_globalrepo"), ("sa.rules.cmeta", "r_internalload")],
-    "C18": [("sa.rules.b4", "r_ledger"), ("sa.rules.c14", "r_ledger2"), ("sa.rules.c14", "r_C15i"), ("sa.rules.c17", "r_C17jkl"), ("sa.rules.c17", "r_C18i"), ("sa.rules.c14", "r_C14inst"), ("sa.rules.c17e", "r_C17eval"), ("sa.rules.cdrv", "r_driver"), ("sa.rules.c17e", "r_C17importuri"), ("sa.rules.c17e", "r_C15eval"), ("sa.rules.c17e", "r_globalrepo")],
+    "C18": [("sa.rules.b4", "r_ledger"), ("sa.rules.c14", "r_ledger2"), ("sa.rules.c14", "r_C15i"), ("sa.rules.c17", "r_C17jkl"), ("sa.rules.c17", "r_C18i"), ("sa.rules.c14", "r_C14inst"), ("sa.rules.c17e", "r_C17eval"), ("sa.rules.cdrv", "r_driver"), ("sa.rules.c17e", "r_C17importuri"), ("sa.rules.c17e", "r_C15eval"), ("sa.rules.c17e", "r_globalrepo"), ("sa.rules.cmeta", "r_internalload"), ("sa.rules.b3", "r_C16a")],
     "C19": [("sa.rules.b6", "r_C19a_C01"), ("sa.rules.c16", "r_cachekeys"), ("sa.rules.c22", "r_visitor"), ("sa.rules.c01e", "r_C01visitors"), ("sa.rules.cmisc", "r_C06bcd"), ("sa.rules.c21", "r_matchvisitors"), ("sa.rules.c16", "r_parseroverrides")],
     "C20": [("sa.rules.b1", "r_C20a"), ("sa.rules.b6", "r_C19a_C01"), ("sa.rules.c16", "r_cachekeys"), ("sa.rules.c22", "r_visitor"), ("sa.rules.c21", "r_matchvisitors"), ("sa.rules.cpn", "r_processnode"), ("sa.rules.c01e", "r_C01visitors"), ("sa.rules.cmeta", "r_mmfromstr"), ("sa.rules.c16", "r_sharedbase")],
     "C21": [("sa.rules.b6", "r_C19a_C01"), ("sa.rules.c16", "r_cachekeys"), ("sa.rules.c22", "r_visitor"), ("sa.rules.c21", "r_matchvisitors"), ("sa.rules.c01e", "r_C01visitors"), ("sa.rules.c02", "r_C02eval"), ("sa.rules.cmeta", "r_mmfromstr"), ("sa.rules.c25e", "r_resolverefs")],
@@ -37,20 +37,20 @@ RULES = {
     "C30": [("sa.rules.c13", "r_C13eval"), ("sa.rules.b3", "r_C28b_C33b_C30bc"), ("sa.rules.c29", "r_cli2"), ("sa.rules.c26", "r_C26eval"), ("sa.rules.c26", "r_C26state"), ("sa.rules.b1", "r_C33a"), ("sa.rules.gen", "r_records"), ("sa.rules.c29", "r_signals")],
     "C31": [("sa.rules.b4", "r_ledger"), ("sa.rules.c14", "r_ledger2"), ("sa.rules.c29", "r_export2"), ("sa.rules.c29", "r_C31d_C29f"), ("sa.rules.c29", "r_signals")],
     "C32": [("sa.rules.c32", "r_C32"), ("sa.rules.c32", "r_C32c"), ("sa.rules.c32", "r_C32de"), ("sa.rules.c01e", "r_C01visitors"), ("sa.rules.cpn", "r_processnode"), ("sa.rules.cdrv", "r_driver"), ("sa.rules.c12", "r_C12b"), ("sa.rules.c25e", "r_resolvecls")],
-    "C33": [("sa.rules.b1", "r_C33a"), ("sa.rules.b7", "r_origin"), ("sa.rules.c13", "r_C13eval"), ("sa.rules.b3", "r_C28b_C33b_C30bc"), ("sa.rules.c29", "r_C33c_C34g"), ("sa.rules.cmisc", "r_C06bcd"), ("sa.rules.cpn", "r_processnode"), ("sa.rules.cdrv", "r_driver"), ("sa.rules.cres", "r_resolver"), ("sa.rules.c16", "r_cachekeys"), ("sa.rules.c25", "r_C28f"), ("sa.rules.b4", "r_ledger"), ("sa.rules.c14", "r_ledger2"), ("sa.rules.cmeta", "r_modelfromstr"), ("sa.rules.c14", "r_C15i")],
+    "C33": [("sa.rules.b1", "r_C33a"), ("sa.rules.b7", "r_origin"), ("sa.rules.c13", "r_C13eval"), ("sa.rules.b3", "r_C28b_C33b_C30bc"), ("sa.rules.c29", "r_C33c_C34g"), ("sa.rules.cmisc", "r_C06bcd"), ("sa.rules.cpn", "r_processnode"), ("sa.rules.cdrv", "r_driver"), ("sa.rules.cres", "r_resolver"), ("sa.rules.c16", "r_cachekeys"), ("sa.rules.c25", "r_C28f"), ("sa.rules.b4", "r_ledger"), ("sa.rules.c14", "r_ledger2"), ("sa.rules.cmeta", "r_modelfromstr"), ("sa.rules.c14", "r_C15i"), ("sa.rules.b3", "r_C16a")],
     "C34": [("sa.rules.b3", "r_C08_C34"), ("sa.rules.cmisc", "r_C13d_C34f_C09d"), ("sa.rules.c29", "r_C33c_C34g"), ("sa.rules.cmisc", "r_C06bcd"), ("sa.rules.c25", "r_who_writes"), ("sa.rules.c05", "r_C05cde"), ("sa.rules.cres", "r_resolver"), ("sa.rules.cpn", "r_processnode"), ("sa.rules.cdrv", "r_driver"), ("sa.rules.c14", "r_C14inst"), ("sa.rules.cmeta", "r_internalload")],
 }
 
 # registrations that exist only so that a shared clause (ALSO) is reported under the property: the function's instances that
 # are counted without being recorded one by one stay with the properties it was written for
-SHARED_ONLY = {("C25", "r_C24"), ("C25", "r_C23"), ("C29", "r_ledger"), ("C33", "r_ledger"), ("C33", "r_ledger2"), ("C33", "r_C15i"), ("C23", "r_C06bcd"), ("C07", "r_initclass"), ("C10", "r_C17importuri"), ("C27", "r_C15eval"), ("C10", "r_C03eval"), ("C06", "r_C19a_C01"), ("C22", "r_C12b"), ("C12", "r_C24"), ("C23", "r_C24")}
+SHARED_ONLY = {("C25", "r_C24"), ("C25", "r_C23"), ("C29", "r_ledger"), ("C33", "r_ledger"), ("C33", "r_ledger2"), ("C33", "r_C15i"), ("C23", "r_C06bcd"), ("C07", "r_initclass"), ("C10", "r_C17importuri"), ("C27", "r_C15eval"), ("C10", "r_C03eval"), ("C06", "r_C19a_C01"), ("C22", "r_C12b"), ("C12", "r_C24"), ("C23", "r_C24"), ("C18", "r_internalload"), ("C18", "r_C16a"), ("C33", "r_C16a"), ("C13", "r_C14inst"), ("C10", "r_internalload")}
 # findings of one property that are *also* reported under another (same defect, two properties)
 ALSO = {
     "C21": {"C01": ("C01.a",)},
     "C32": {"C18": ("C18.k",), "C12": ("C12.e",)},
     "C23": {"C03": ("C03.m",), "C06": ("C06.c",)},      # a valid grammar whose rule kinds cannot be determined ends in a non-textX error
     "C03": {"C01": ("C01.h",)},
-    "C18": {"C15": ("C15.k", "C15.m"), "C17": ("C17.n",)},
+    "C18": {"C15": ("C15.k", "C15.m"), "C17": ("C17.n", "C17.o",), "C16": ("C16.a",)},
     "C20": {"C01": ("C01.k",)},
     # reference lists are attribute values too: the order clauses of C08 are clauses of C02 ("never reorder matched values")
     "C02": {"C08": ("C08.a", "C08.d", "C08.e"), "C01": ("C01.e", "C01.j"), "C13": ("C13.b",), "C06": ("C06.b",)},
@@ -64,9 +64,9 @@ ALSO = {
     # "a repeated load of the same file returns the cached model": cleanup of a failed load must not evict finished models
     "C17": {"C18": ("C18.a", "C18.b", "C18.j", "C18.k"), "C15": ("C15.j",)},
     # the reference spans of _pos_crossref_list are the (position, position_end) queued with each ObjCrossRef
-    "C34": {"C08": ("C08.e"), "C06": ("C06.b", "C06.c", "C06.f", "C06.g"), "C05": ("C05.f",), "C14": ("C14.p",)},    # def_file_name / filename of a location: the model found by get_model
+    "C34": {"C08": ("C08.e"), "C06": ("C06.b", "C06.c", "C06.f", "C06.g"), "C05": ("C05.f",), "C14": ("C14.p", "C14.j", "C14.c",)},    # def_file_name / filename of a location: the model found by get_model
     # a user object's own position must replace the class-level one (C06.b) before a processor error is located with it
-    "C33": {"C06": ("C06.b", "C06.a", "C06.f", "C06.g"), "C13": ("C13.h",), "C01": ("C01.k",), "C28": ("C28.h", "C28.i", "C28.f"), "C18": ("C18.a", "C18.d"), "C15": ("C15.b", "C15.i",)},     # C18.a/d: a model whose object processor failed must leave the repositories, or the next load of the file returns it without any error
+    "C33": {"C06": ("C06.b", "C06.a", "C06.f", "C06.g"), "C13": ("C13.h",), "C01": ("C01.k",), "C28": ("C28.h", "C28.i", "C28.f"), "C18": ("C18.a", "C18.d"), "C15": ("C15.b", "C15.i",), "C16": ("C16.a",)},     # C18.a/d: a model whose object processor failed must leave the repositories, or the next load of the file returns it without any error
     # the parent link of an object of a user class is a collected attribute: it is lost when the instrumentation ends while a load is still building objects
     "C05": {"C14": ("C14.j", "C14.m", "C14.p"), "C16": ("C16.a",), "C01": ("C01.j",), "C13": ("C13.b",)},     # C13.b: a replacement written into another slot leaves a contained object whose parent link does not match the list; C01.j: a list attribute left on the class is shared: every object 'contains' the children of all others
     # a reference list / an attribute a user class shadows at class level is shared by all objects (C08: order of one object's references; C14: __init__ arguments)
@@ -87,11 +87,11 @@ ALSO = {
     "C01": {"C02": ("C02.e",), "C04": ("C04.a", "C04.d", "C04.g"), "C23": ("C23.c",), "C03": ("C03.k", "C03.m", "C03.n"), "C05": ("C05.g",), "C16": ("C16.a",)},
     # C23.c (subscripted terminal in the invalid-regex handler) is the node-kind clause C01.f as well
     # C13 'the object processor registered for a rule': a registration replaces the previous table, never the built-in one (C04.e)
-    "C13": {"C04": ("C04.e",), "C01": ("C01.k",), "C18": ("C18.k",), "C14": ("C14.q",)},
+    "C13": {"C04": ("C04.e",), "C01": ("C01.k",), "C18": ("C18.k",), "C14": ("C14.q", "C14.j", "C14.c",)},
     # C16 'each load ... equal to a fresh process state, also after failing loads': instrumentation / storage / repository cleanup clauses
     "C16": {"C01": ("C01.d", "C01.h",), "C15": ("C15.c", "C15.d", "C15.h", "C15.j", "C15.k", "C15.m"), "C14": ("C14.a", "C14.f", "C14.i", "C14.j", "C14.c", "C14.k"), "C18": ("C18.k", "C18.j")},
     # C10 'ending in an object of the target type': the conformance test textx_isinstance
-    "C10": {"C03": ("C03.c", "C03.h", "C03.m"), "C01": ("C01.i",), "C14": ("C14.m", "C14.p"), "C05": ("C05.h", "C05.g"), "C07": ("C07.e",), "C17": ("C17.m", "C17.n",)},      # C17.m: which imported models are visible to the importing model decides which qualified names the import providers may resolve (alias-only imports stay invisible)
+    "C10": {"C03": ("C03.c", "C03.h", "C03.m"), "C01": ("C01.i",), "C14": ("C14.m", "C14.p"), "C05": ("C05.h", "C05.g"), "C07": ("C07.e",), "C17": ("C17.m", "C17.n", "C17.o",)},      # C17.m: which imported models are visible to the importing model decides which qualified names the import providers may resolve (alias-only imports stay invisible)
     # the type a (possibly qualified) reference names is kept over repeated assignments
     "C25": {"C01": ("C01.i",), "C23": ("C23.a",)},      # (the differ reports disagreements about the tokens of the import statement under C25 itself); C23.a: a rule of an imported grammar looked up by simple name raises KeyError
     "C29": {"C31": ("C31.a",)},      # the generator commands write their export through gen_file: a truncated file left behind is an ill-formed export
